@@ -43,15 +43,14 @@ theorem C10_uint_leaf (c : Cfg) (n : Nat) (h : n ≤ Scalar.U64_MAX) :
 
 example : (18446744073709551615 : Nat) ≤ Scalar.U64_MAX := by decide
 
-/-- signed integer leaves: the I64 (or I32) token and its decimal text are the same value for an
-`i64` request: `to_i64 (fmtInt n) = n`.  Stated for |n| ≤ 2^63-1: the present scalar model refuses
-the magnitude 2^63 (i64::MIN) before applying the sign; once the repaired `to_i64` (repo 8327848)
-is in Model/Scalar.lean the range becomes -2^63..2^63-1. -/
-theorem C10_int_leaf (c : Cfg) (n : Int) (h : n.natAbs ≤ Scalar.I64_MAX) :
+/-- signed integer leaves: the I64 (or I32) token and its decimal text are the same value for an `i64` request,
+for EVERY i64 (`i64::MIN` included: `to_i64 (fmtInt n) = n`, `toI64_fmtInt`; the repaired `to_i64` of /repo 8327848 is
+what `Model/Scalar.lean` models). -/
+theorem C10_int_leaf (c : Cfg) (n : Int) (h : inI64 n = true) :
     textLeaf c .i64 (.i64 n) = valLeaf c .i64 (.i64 n) ∧ textLeaf c .i64 (.i32 n) = valLeaf c .i64 (.i32 n) := by
-  simp [textLeaf, leafText, textScalarVal, valLeaf, u16Leaf, leafPrim, toI64_fmtInt n h, visitPrim, Prim.asInt]
+  simp [textLeaf, leafText, textScalarVal, valLeaf, u16Leaf, leafPrim, toI64_fmtInt' n h, visitPrim, Prim.asInt]
 
-example : (-9223372036854775807 : Int).natAbs ≤ Scalar.I64_MAX := by decide
+example : inI64 (-9223372036854775808) = true ∧ inI64 9223372036854775807 = true ∧ inI64 9223372036854775808 = false := by decide
 
 /-- a string leaf means the same in both formats (the same Windows-1252 decoding of the same bytes),
 quoted or not. -/
